@@ -4,3 +4,10 @@ mod multinomial;
 pub mod vanilla;
 
 pub use data::RegretParams;
+
+/// verification only: the private categorical sampler on a caller-supplied generator
+#[cfg(cfr_verif)]
+pub fn verif_multinomial_sample<R: rand::Rng + ?Sized>(probs: &[f64], rng: &mut R) -> usize {
+    use rand_distr::Distribution;
+    multinomial::Multinomial::new(probs).sample(rng)
+}
